@@ -13,7 +13,7 @@ def gen(rng, tier):
 
 globals().update(acct_prop.make(
     'C05', components=['match.price', 'match.outcome', 'match.broker'], clauses=['C05.'], gen=gen, analyser=matching.analyse, prelude=matching.PRELUDE,
-    coq=['Model/Matcher.v', 'Model/Broker.v', 'Proofs/MatcherFacts.v', 'Proofs/BrokerFacts.v', 'Gen/Slippage.v'], gen_mods=['Slippage'],
+    coq=['Model/Matcher.v', 'Model/Broker.v', 'Proofs/MatcherFacts.v', 'Proofs/BrokerFacts.v', 'Gen/Slippage.v', 'Gen/BrokerProg.v'], gen_mods=['Slippage', 'BrokerProg'],
     rule=('random order streams (market / limit at, above and below the market, stock and futures, auction and bar phases) over bars at the '
           'limits, missing bars and zero turnover; all matching types valid for the frequency (current_bar, vwap, next_bar for minute bars), all '
           'three slippage models and rates; a case is one recorded matcher call replayed through Model/Matcher.v (outcome class, price, '
